@@ -210,6 +210,7 @@ EXTRACT = [
     ("disasm/msp430.cpp", r"^static int get_dest_reg\(", "msp430_get_dest_reg.inc"),
     ("disasm/pdp11.cpp", r"^static int pdp11_addressing_mode\(", "pdp11_addressing_mode.inc"),
     ("core/directives.cpp", r"^int parse_repeat\(", "parse_repeat.inc"),
+    ("core/directives.cpp", r"^int parse_org\(", "parse_org.inc"),
     ("core/AsmContext.cpp", r"^int AsmContext::link\(\)", "AsmContext_link.inc"),
     ("core/Linker.cpp", r"^uint8_t \*Linker::get_code_from_symbol\(", "Linker_get_code_from_symbol.inc"),
     ("core/UtilContext.cpp", r"^void UtilContext::print8\(const char \*token\)", "UtilContext_print8.inc"),
